@@ -867,6 +867,44 @@ def desugar_iter(body, qualname):
             params[0], args[0], params[1], recv, params[0], cb, params[0])
         body = body[:st] + rep + body[c + 1:]
         applied.append({'rule': 'D2 fold -> accumulator loop', 'receiver': recv})
+    # ---- D5 : E.any(|P| BODY)  =>  { let mut verif_anyN = false; for P in E { if BODY { verif_anyN = true; break; } } verif_anyN }
+    # (std: "any() is short-circuiting; it will stop processing as soon as it finds a true")
+    n_any = 0
+    while True:
+        i = body.find('.any(')
+        if i < 0:
+            break
+        o = i + len('.any(') - 1
+        c = match_close(body, o, '(', ')')
+        params, cb = _parse_closure(body[o + 1:c], qualname)
+        if len(params) != 1 or CONTROL.search(cb):
+            raise ExtractError("desugar D5 does not apply in %s" % qualname)
+        # receiver: scan back over a method chain made of identifiers, dots and balanced call parentheses
+        j = i
+        while j > 0:
+            ch = body[j - 1]
+            if ch.isalnum() or ch in '_.':
+                j -= 1
+            elif ch == ')':
+                d = 0
+                k = j - 1
+                while k >= 0:
+                    if body[k] == ')':
+                        d += 1
+                    elif body[k] == '(':
+                        d -= 1
+                        if d == 0:
+                            break
+                    k -= 1
+                j = k
+            else:
+                break
+        recv = body[j:i]
+        var = 'verif_any%d' % n_any
+        n_any += 1
+        rep = '{ let mut %s = false;\n        for %s in %s {\n            if %s {\n                %s = true;\n                break;\n            }\n        }\n        %s }' % (var, params[0], recv, cb, var, var)
+        body = body[:j] + rep + body[c + 1:]
+        applied.append({'rule': 'D5 any -> short-circuit loop', 'receiver': recv})
     # ---- R14 : `X.into_iter()` handed to a callee as an argument is emitted as `(X.into_iter()).into_iter()`.
     # `Iterator::into_iter` is the identity (core: `impl<I: Iterator> IntoIterator for I { fn into_iter(self) -> I { self } }`);
     # the extra call only restores the type information Verus drops for the associated type of the by-value
